@@ -148,6 +148,49 @@ func (fr *Frame) allocRank(a *ssa.Alloc) int {
 	return fr.ranks[a]
 }
 
+// counterInLoop: can the path counter k ("calls.<tag>" / "go.count") change inside loop li of frame fr? Counters
+// belong to the call sites of the function under verification itself; loops of inlined callees never touch them.
+func (x *Exec) counterInLoop(fr *Frame, li *loopInfo, k string) bool {
+	if !fr.top {
+		return false
+	}
+	for b := range li.body {
+		for _, ins := range b.Instrs {
+			if k == "go.count" {
+				if _, ok := ins.(*ssa.Go); ok {
+					return true
+				}
+				continue
+			}
+			if t, ok := x.siteTags[ins]; ok && "calls."+t == k {
+				return true
+			}
+		}
+	}
+	return false
+}
+
+// allocByKey finds the stack local behind a state variable key (see allocRank).
+func (fr *Frame) allocByKey(key string) *ssa.Alloc {
+	if fr.ranks == nil {
+		return nil
+	}
+	for al, r := range fr.ranks {
+		name := al.Comment
+		if name == "" {
+			name = al.Name()
+		}
+		k := fmt.Sprintf("f%d.%s", fr.id, name)
+		if r > 1 {
+			k = fmt.Sprintf("f%d.%s#%d", fr.id, name, r)
+		}
+		if k == key {
+			return al
+		}
+	}
+	return nil
+}
+
 func (x *Exec) fnShort(fn *ssa.Function) string {
 	s := fn.String()
 	s = strings.ReplaceAll(s, repoMod+"/", "")
@@ -491,6 +534,17 @@ func (x *Exec) loopHead(fr *Frame, li *loopInfo, pre *State) (*State, error) {
 		h.Epoch = x.nextEpoch()
 		h.Mix = nil
 		h.Ghost = map[string]Term{}
+		for k, t := range pre.Ghost {
+			// path counters (called(), spawned()) exist on every path; after an unknown number of iterations their
+			// value is unknown
+			if strings.HasPrefix(k, "calls.") || k == "go.count" {
+				if x.counterInLoop(fr, li, k) {
+					h.Ghost[k] = x.u.Fresh("ghost$"+k+".havoc", t.So)
+				} else {
+					h.Ghost[k] = t
+				}
+			}
+		}
 		// the allocation counter only grows
 		h.Alloc = loopAlloc
 		x.u.epochAlloc[h.Epoch] = loopAlloc
@@ -505,6 +559,9 @@ func (x *Exec) loopHead(fr *Frame, li *loopInfo, pre *State) (*State, error) {
 		}
 		if eff.ghosts {
 			for k, t := range pre.Ghost {
+				if (strings.HasPrefix(k, "calls.") || k == "go.count") && !x.counterInLoop(fr, li, k) {
+					continue // a path counter of a call site outside this loop keeps its value
+				}
 				h.Ghost[k] = x.u.Fresh("ghost$"+k+".havoc", t.So)
 			}
 		}
@@ -514,6 +571,15 @@ func (x *Exec) loopHead(fr *Frame, li *loopInfo, pre *State) (*State, error) {
 		if v, ok := h.Vars[k]; ok {
 			if v.P != nil || v.F != nil {
 				return nil, engineErr("%s loop %d: engine-level pointer/closure variable %s assigned inside a loop", fname, li.ordinal, k)
+			}
+			if v.T == nil {
+				// engine-level value without a Go type (the "visited" set of a range over a map)
+				nv := Val{S: make([]Term, len(v.S))}
+				for i := range v.S {
+					nv.S[i] = x.u.Fresh(k+".havoc", v.S[i].So)
+				}
+				h.Vars[k] = nv
+				continue
 			}
 			h.Vars[k] = x.u.FreshVal(k+".havoc", v.T)
 			x.u.assumeValExisting(h, h.Vars[k])
@@ -1033,7 +1099,11 @@ func (x *Exec) effectsOfCall(fr *Frame, ci ssa.CallInstruction, eff *loopEffects
 		}
 		if n, ok := types.Unalias(c.Value.Type()).(*types.Named); ok && n.Obj().Pkg() != nil {
 			if fc := x.cs.Funcs["type:"+n.Obj().Pkg().Path()+"."+n.Obj().Name()]; fc != nil {
-				x.fieldContractEffects(fc, nil, c.Signature(), eff)
+				if len(fc.ParamNames) == c.Signature().Params().Len()+1 {
+					x.fieldContractEffects(fc, c.Value.Type(), c.Signature(), eff)
+				} else {
+					x.fieldContractEffects(fc, nil, c.Signature(), eff)
+				}
 				return
 			}
 		}
